@@ -9,7 +9,7 @@ EscapedStringExt, HashComments, OmitDelimiter – every option the community dri
 `migrate.Stmts` use. GoCommand, MatchBeginTryCatch and BeginEndTerminator (used by no driver of this
 repository) are not modelled.
 
-Loops take a fuel argument; `Out.fuel` means it ran out (never observed; `Props.C08`).
+Loops take a fuel argument; `Out.fuel` means it ran out (impossible: `Props.C08.fuel_suffices`).
 `fixed = false` is the pinned commit (`init` does not count the stripped `atlas:delimiter` header in
 `total`; `delimCmd` slices a one-character quoted delimiter out of range), `fixed = true` the
 repaired tree.
@@ -457,5 +457,15 @@ def scan (fixed : Bool) (o : Opts) (input : Bytes) : Sum Out (List Stmt) :=
   match init fixed input with
   | none => .inl .err
   | some s => scanAll fixed o (fuelFor input) (input.length + 2) s []
+
+/-- `Scan` with the two loop bounds of the model given explicitly (`scan` fixes them from the input
+length); `Props.C08.fuel_irrelevant` shows that they do not matter once they are large enough. -/
+def scanWith (fixed : Bool) (o : Opts) (fuel n : Nat) (input : Bytes) : Sum Out (List Stmt) :=
+  match init fixed input with
+  | none => .inl .err
+  | some s => scanAll fixed o fuel n s []
+
+theorem scan_eq_scanWith (fixed : Bool) (o : Opts) (input : Bytes) :
+    scan fixed o input = scanWith fixed o (fuelFor input) (input.length + 2) input := rfl
 
 end Atlas.Lex
